@@ -78,6 +78,30 @@ SEEDS = [
  ("S91", "round4/N", 5, "C18", "assemble.rs append_code: every inlined instruction gets protected = false", "csleep(7); csleep(7); or two loads in an inline function at -O1"),
  ("S92", "round4/N", 6, "C17", "generate_asm.rs new port_offset(): reading mnemonics listed explicitly, CPX/CPY forgotten", "if (X == s) on a superchip / 3E / 3E+ variable reads the write port"),
  ("S93", "round4/N", 7, "C15", "Variable::is_16bits unifies three 16-bit tests and drops ShortPtr from the compound-assignment one", "a[1] += k on a short array updates only the low byte when it carries"),
+ ("S94", "round5/P", 1, "C01", "generate_assign: three store arms merged; the !high_byte guard survives only on the Absolute pattern", "short arr[n]; arr[X] = s; if (arr[X] != 0) with s in 1..255: only the high byte is tested"),
+ ("S95", "round5/P", 2, "C01", "generate_arithm: the per-arm 'if acc_in_use { PHA }' hoisted above the match", "(a + b) + (s & 0xff): PHA without PLA, the RTS pops garbage"),
+ ("S96", "round5/P", 3, "C01", "generate_shift: offset + v.size becomes offset + 1 for >> 8", "short arr[4]; c = arr[2] >> 8 reads arr+3 instead of arr+6"),
+ ("S97", "round5/P", 4, "C01", "generate_plusplus: after the 16-bit decrement flags are set to the variable instead of Unknown", "do { ... } while (--s) with s = 0x0105 stops at 0x0100"),
+ ("S98", "round5/P", 5, "C01", "purge_deferred_plusplus_and_savey: Y restored before the deferred ++ / -- run", "buf[i]-- or p[3]++ with Y different from the index"),
+ ("S99", "round5/P", 6, "C12", "generate_function_call: inline calls are no longer noted in the call tree", "an inline function that calls another function (or has parameters / locals)"),
+ ("S100", "round5/P", 7, "C01", "generate_for_loop: the purge after the init expression dropped", "for (i = j--; i < 10; i++): DEC j runs inside the loop"),
+ ("S101", "round5/P", 8, "C01", "generate_csleep_statement: flags reset only for 5, 9 and 10 cycles", "Y = 0; csleep(7); if (Y): PLA sets Z from A"),
+ ("S102", "round5/Q", 1, "C17", "assemble.rs optimize STA/STX/STY: a store only invalidates register knowledge whose operand string matches", "a split-port variable written as sv and read as sv+128: a = sv; sv = X; b = sv; at -O1"),
+ ("S103", "round5/Q", 2, "C03", "assemble.rs check_branches outer loop: the scan resumes at the repaired branch", "an earlier forward branch spanning 126 bytes containing a repaired branch grows to 129"),
+ ("S104", "round5/Q", 3, "C14", "assemble.rs append_code via a new AsmInstruction::jump() helper: inlined branches lose protected", "inline f() { if (X <= 3) ... } called after X = 5 at -O1: CPX #3 / BEQ removed, BCS tests a stale carry"),
+ ("S105", "round5/Q", 4, "C04", "generate_asm.rs asm() AbsoluteY sizes via indexed_operand_size(): LDA/STA arr,Y on a zero-page array sized 2", "a[Y] = b[Y]; reports 4 bytes instead of 6"),
+ ("S106", "round5/Q", 5, "C12", "generate_asm.rs function_is_actually_in_use(): inline functions skipped", "a function called only from an inline body is not emitted"),
+ ("S107", "round5/Q", 6, "C16", "generate_conditions.rs generate_if: Break/Continue arms merged, the 'continue label used' flag dropped", "an unbraced if (c) continue; in a do-while: branch to an unemitted label, check_branches panics"),
+ ("S108", "round5/Q", 7, "C11", "assemble.rs AsmLine::write: {:19} became {:19.19}", "--insert-code and an operand longer than 19 characters (.switchnextstatement2): truncated in the written text"),
+ ("S109", "round5/Q", 8, "C01", "generate_asm.rs label(): carry_flag_ok = false removed", "if (i == 0) x = a - b; else if (i > 1) r = 1;: the else test uses a stale carry"),
+ ("S110", "round5/R", 1, "C08", "cpp.rs Context::undefine: chunk/slot search replaced by flatten().position() then /100, %100", "100 or more macros, an earlier #undef in chunk 0, then an #undef of a macro in a later chunk"),
+ ("S111", "round5/R", 2, "C05", "cpp.rs Context::define_ex plus a thread_local cache of compiled macro regexes keyed by macro name", "the same function-like macro name defined again with other parameter names in a later compilation of the same process (or after #undef)"),
+ ("S112", "round5/R", 3, "C07", "cpp.rs process: non-# lines of an inactive region skip the comment/literal scan", "a /* opened inside a skipped region that spans a directive-looking line"),
+ ("S113", "round5/R", 4, "C01", "cc6502.pest infix_ex: alternatives relisted tightest to loosest, so & is tried before &&", "&& or || in the initialiser of a local variable"),
+ ("S114", "round5/R", 5, "C10", "compile.rs calculator Pratt table: eq|neq merged with the relational operators", "== or != followed by an unparenthesised relational operator in a constant expression"),
+ ("S115", "round5/R", 6, "C01", "compile.rs compile_func_decl: per-parameter locals (signed, signedness_specified) hoisted out of the loop", "a plain char parameter after a signed parameter, used where signedness matters"),
+ ("S116", "round5/R", 7, "C06", "compile.rs syntax_error/compiler_error/warning: char scans replaced by lines().count() - 1", "a semantic error whose token is in column 0 of a line other than the first"),
+ ("S117", "round5/R", 8, "C09", "compile.rs compile_quoted_string_ex: escapes applied by successive replace()", "an escaped backslash directly followed by one of 0 n r a b t f v (\"C:\\\\new\")"),
 ]
 CONTROLS = [("K01", "round2/E", 1, "cpp.rs: three-valued State enum replaced by two booleans"), ("K02", "round2/E", 2, "renamed generated local labels"),
             ("K03", "round2/E", 3, "new peephole rule: unreachable instruction after RTS/RTI removed"), ("K04", "round2/E", 4, "different instruction selection for X = Y / Y = X while the accumulator is in use"),
@@ -85,18 +109,21 @@ CONTROLS = [("K01", "round2/E", 1, "cpp.rs: three-valued State enum replaced by 
             ("K07", "round3/G", 6, "compile.rs: location() and create_literal_variables() helpers (pure deduplication)"), ("K08", "round3/H", 6, "generate_branch_instruction Gt: BCC/BMI .ifhere; BNE L instead of BEQ .ifhere; BCS/BPL L"),
             ("K11", "round4/L", 7, "check_branches: reach = 128 for backward branches (a backward branch at exactly 128 is no longer rewritten)"), ("K12", "round4/K", 7, "v += 1 / v -= 1 on an 8-bit memory destination become INC / DEC"),
             ("K13", "round4/M", 7, "find() instead of splitn(), line scan extracted into a helper, i + 1 == len"), ("K14", "round4/N", 8, "new sound peephole rule: CLC/SEC removed when the carry is known, knowledge dropped at JSR/JMP/RTS/labels"),
+            ("K15", "round5/P", 9, "arr[Y] = X uses STX arr,Y for a real zero-page char array"), ("K16", "round5/P", 10, "csleep(9) is PHA/PLA/NOP, all protected"),
+            ("K17", "round5/Q", 9, "check_branches: backward branches may reach 128 bytes"), ("K18", "round5/Q", 10, "generate_switch: the dead fall-through JMP after a case ending with break is omitted"),
+            ("K19", "round5/R", 9, "one helper builds both Pratt tables"), ("K20", "round5/R", 10, "#ifdef / #ifndef branches merged (is_some() != wanted)"),
             ("K09", "round3/I", 7, "csleep(9): NOP; NOP; DEC DUMMY instead of DEC DUMMY; NOP; NOP"), ("K10", "round3/J", 7, "several small refactors of -D parsing, undefine, #ifdef state match, folding")]
 REBASED = {("round2/C", 2): "rebased/C_patch_2.diff", ("round3/G", 6): "rebased/G_patch_6.diff", ("round3/J", 7): "rebased/J_patch_7.diff"}
 
 conf = {}
-for fn in ("seed_confirm2.log", "seed_confirm3.log", "seed_confirm4.log"):
+for fn in ("seed_confirm2.log", "seed_confirm3.log", "seed_confirm4.log", "seed_confirm5.log"):
     for l in open(os.path.join(W, fn)):
         try:
             o = json.loads(l)
         except ValueError:
             continue
         d = o["dir"].rstrip("/")
-        key = {"/tmp/c2r": "round2/C"}.get(d, ("round2/" if "wt2_" in d else "round3/" if "wt3_" in d else "round4/") + d[-1])
+        key = {"/tmp/c2r": "round2/C"}.get(d, ("round2/" if "wt2_" in d else "round3/" if "wt3_" in d else "round4/" if "wt4_" in d else "round5/") + d[-1])
         conf[(key, int(o["n"]))] = o
 farm = {}
 for fn in sys.argv[1:]:
